@@ -141,11 +141,17 @@ class P(Prop):
     ]
 
     # ---------------------------------------------------------------- generation
-    def _prots(self, rng, lo, hi, outside=0.25):
+    def _prots(self, rng, lo, hi, present=()):
         n = rng.randint(lo, hi)
         out = []
         for _ in range(n):
-            out.append(rng.choice(OUTSIDE) if rng.random() < outside else rng.choice(INSIDE))
+            r = rng.random()
+            if r < 0.2:
+                out.append(rng.choice(OUTSIDE))
+            elif r < 0.8 and present:
+                out.append(rng.choice(present))
+            else:
+                out.append(rng.choice(INSIDE))
         return out
 
     def _gen_op(self, rng, present):
@@ -178,12 +184,12 @@ class P(Prop):
              "missing_groups", "missing_groups", "shared_groups", "size", "all"]
         )
         if k in ("group", "idx"):
-            return [k, self._prots(rng, 1, 1)[0], chk]
+            return [k, self._prots(rng, 1, 1, present)[0], chk]
         if k in ("idxs", "groups"):
-            return [k, self._prots(rng, 0, 3), chk]
+            return [k, self._prots(rng, 0, 3, present), chk]
         if k in ("size", "all"):
             return [k]
-        return [k, self._prots(rng, 0 if rng.random() < 0.1 else 1, 3)]
+        return [k, self._prots(rng, 0 if rng.random() < 0.1 else 1, 3, present)]
 
     def gen_case(self, rng, tier):
         n = rng.choice([1, 2, 3, 4, 6, 8, 10, 12, 16, 20, 25])
@@ -197,9 +203,12 @@ class P(Prop):
             from_list = rng.random() < 0.7
             present = {p for g in init for p in g}
         ops = []
+        reindex = rng.choice([0.0, 0.3, 0.6, 0.9])  # how often a caller re-indexes right after a change
         for _ in range(n):
             op = self._gen_op(rng, sorted(present))
             ops.append(op)
+            if op[0] in ("append", "extend", "merge") and rng.random() < reindex:
+                ops.append(["index"] if rng.random() < 0.8 else ["clean"])
             if op[0] == "append":
                 present |= set(op[1])
             elif op[0] in ("extend", "unseen"):
